@@ -338,3 +338,8 @@ Definition run_case (c : case_ty) : list string :=
   match c with (simp, n, ch, skip, hb, geom) => compute_dssp simp n ch skip hb geom end.
 Definition run_sensitive (c : case_ty) : bool :=
   match c with (_, n, ch, skip, hb, _) => sort_sensitive n ch skip hb end.
+
+(* the characters dssp() writes for one frame (C++ level, before the Python layer) *)
+Definition dssp_chars n ch skip hb geom : list string := map ss_char (dssp_frame n ch skip hb geom).
+Definition run_case_c (c : case_ty) : list string :=
+  match c with (_, n, ch, skip, hb, geom) => dssp_chars n ch skip hb geom end.
